@@ -108,7 +108,7 @@ func (st *StateDB) RemoveValidator(mainAddress common.Address) bool {
 		return false
 	}
 	val := value.(*Validator)
-	st.validatorJournal.append(validatorDeleteChange{address: &mainAddress, oldVal: val})
+	st.validatorJournal.append(validatorDeleteChange{address: &mainAddress, oldVal: val, prevDeleted: val.deleted})
 	val.deleted = true
 
 	st.decrValidatorsStat(val)
